@@ -25,7 +25,12 @@ type c20Mon struct {
 	posted     bool
 }
 
-func (m *c20Mon) exec() error {
+func (m *c20Mon) exec() (err error) {
+	vMon(func() { err = m.exec1() })
+	return err
+}
+
+func (m *c20Mon) exec1() error {
 	now := vNow()
 	// simultaneous timer expiry and cancellation: Go's select may pick either; outside the claim
 	vAssume(!(m.cancelled && now == m.cancelAt))
@@ -68,8 +73,10 @@ func (m *c20Mon) setup() {
 		m.tc = vNondet[time.Duration]("tc")
 		vAssume(m.tc >= 0 && m.tc <= 1<<42)
 		vAfterFunc(m.tc, func() {
-			m.cancelled = true
-			m.cancelAt = vNow()
+			vMon(func() {
+				m.cancelled = true
+				m.cancelAt = vNow()
+			})
 			m.ctx.cancel(false)
 		})
 	}
@@ -77,10 +84,15 @@ func (m *c20Mon) setup() {
 }
 
 func (m *c20Mon) finish(err error) {
+	ctxErr := m.ctx.Err()
+	vMon(func() { m.finish1(err, ctxErr) })
+}
+
+func (m *c20Mon) finish1(err error, ctxErr error) {
 	vLog("execs", m.execs)
 	if m.cancelled {
 		vCover("cancelled-during-a-wait")
-		vAssert(err != nil && errors.Is(err, m.ctx.Err()), "cancel-in-wait-error-matches-ctx-error")
+		vAssert(err != nil && errors.Is(err, ctxErr), "cancel-in-wait-error-matches-ctx-error")
 		vAssert(vNow() == m.cancelAt, "cancel-in-wait-returns-promptly")
 		if m.execs > 1 {
 			vCover("cancel-in-later-wait")
@@ -105,14 +117,16 @@ type c20Node struct {
 }
 
 func (n *c20Node) Prep(ctx context.Context, s *SharedStore) (any, error) {
-	n.m.prepAt = vNow()
+	vMon(func() { n.m.prepAt = vNow() })
 	return nil, nil
 }
 func (n *c20Node) Exec(ctx context.Context, p any) (any, error) { return nil, n.m.exec() }
 func (n *c20Node) ExecFallback(p any, err error) (any, error)   { return nil, nil }
 func (n *c20Node) Post(ctx context.Context, s *SharedStore, p, e any) (Action, error) {
-	n.m.posted = true
-	n.m.postAt = vNow()
+	vMon(func() {
+		n.m.posted = true
+		n.m.postAt = vNow()
+	})
 	return "x", nil
 }
 
@@ -132,7 +146,7 @@ func VH_C20_batchItem() {
 	var slotIsErr bool
 	b := NewBatchNode().WithMaxRetries(m.budget).WithWait(m.w).
 		WithPrepFunc(func(ctx context.Context, s *SharedStore) ([]Result, error) {
-			m.prepAt = vNow()
+			vMon(func() { m.prepAt = vNow() })
 			return []Result{NewResult(1)}, nil
 		}).
 		WithExecFunc(func(ctx context.Context, item Result) (Result, error) {
@@ -142,18 +156,25 @@ func VH_C20_batchItem() {
 			return item, nil
 		}).
 		WithPostFunc(func(ctx context.Context, s *SharedStore, items, results []Result) (Action, error) {
-			m.posted = true
-			m.postAt = vNow()
-			slotIsErr = results[0].IsError()
-			slotErr = results[0].Error()
+			vMon(func() {
+				m.posted = true
+				m.postAt = vNow()
+				slotIsErr = results[0].IsError()
+				slotErr = results[0].Error()
+			})
 			return "x", nil
 		})
 	_, err := Run(m.ctx, b, NewSharedStore())
+	ctxErr := m.ctx.Err()
+	vMon(func() { c20BatchFinish(m, err, slotIsErr, slotErr, ctxErr) })
+}
+
+func c20BatchFinish(m *c20Mon, err error, slotIsErr bool, slotErr error, ctxErr error) {
 	vLog("execs", m.execs)
 	if m.cancelled {
 		vCover("cancelled-during-a-wait")
 		// a batch reports the cancellation through the item's slot
-		vAssert(err == nil && m.posted && slotIsErr && errors.Is(slotErr, m.ctx.Err()), "cancel-in-item-wait-slot-error-matches-ctx-error")
+		vAssert(err == nil && m.posted && slotIsErr && errors.Is(slotErr, ctxErr), "cancel-in-item-wait-slot-error-matches-ctx-error")
 		vAssert(m.postAt == m.cancelAt, "cancel-in-item-wait-returns-promptly")
 	} else {
 		vCover("no-cancel")
